@@ -156,6 +156,15 @@ def generate(seed, tier="quick"):
             # a concurrent caller that is cancelled while its look-ups are in flight (F3); not observed itself
             request["fault"] = {"kind": "cancel", "at": rnd.choice([0, 1, 2, 3, 10])}
     world = {"flavour": "cer" if rnd.random() < 0.3 else "sim", "rc_keys": [], "fc_keys": [], "hint_keys": []}
+    if rnd.random() < 0.25:
+        # the shipped DictBasedPackageResolver, built once from one table: every caller of the process shares it
+        world["flavour"] = "dict"
+        for request in requests[1:]:
+            request["cer"] = clone(requests[0]["cer"])
+            request["cer"]["hints"] = {}
+            used = list(dict.fromkeys(k for k, _ in PACKAGE.findall(request["op"]["expr"])))
+            request["missing"] = next((k for k in used if k not in request["cer"]["packages"]), None)
+        world["dict_cer"] = clone(requests[0]["cer"])
     profile = rnd.choice([p for p in PROFILES if p != "zero"] * 3 + ["zero"])
     return {"property": PROP_ID, "seed": seed, "profile": profile, "world": world, "requests": requests}
 
@@ -295,4 +304,8 @@ def shrink(scenario):
                 yield candidate
     if scenario["world"].get("flavour") == "cer":
         yield dict(scenario, world=dict(scenario["world"], flavour="sim"))
+    if scenario["world"].get("flavour") == "dict":
+        # keep the resolver's table in step with the (possibly shrunk) first request
+        if scenario["world"]["dict_cer"]["packages"] != requests[0]["cer"]["packages"]:
+            yield dict(scenario, world=dict(scenario["world"], dict_cer=clone(requests[0]["cer"])))
     yield from shrink_decisions(scenario)
